@@ -348,6 +348,41 @@ def check_C06(chk):
                                                  "statement": "IndInv is inductive and implies NoReadAhead / OkMeansAll / "
                                                               "TruncNeverOk / FaultIsError for arbitrary element lengths"}
     stream_pipeline(chk, "C06", plans, 5 if q else 6)
+    reader_extension(chk)
+
+
+READER_INV = ["NeverBeyond", "Contiguous", "ReadsRFCFields", "ReleaseGivesRest", "FailureEnds"]
+
+
+def reader_extension(chk):
+    """Specification extension (not part of C06 as stated): the element-level reader API (read_header / read_tag /
+    read_name / read_value / into_inner / into_payload) as the state machine MC_Reader; every session TLC enumerates
+    and native sessions with realistic field sizes are driven through IppReader and AsyncIppReader over fragmenting
+    sources and judged by Trace_Reader.  A rejection prints SPEC-EXTENSION-REJECTED, never VIOLATION."""
+    q = chk.tier == "quick"
+    wd = workdir(chk.pid)
+    const = dict(Alphabet={0, 1, 2} if q else {0, 1, 2, 200}, MaxLen=4 if q else 5, MaxCalls=3, LenOrder="be")
+    r = mc(chk.pid, "mc_reader", "MC_Reader.tla", const, READER_INV, properties=["Ends"], view="view",
+           coverage_actions=["Call", "Release"])
+    chk.add_mc(r, "MC_Reader (extension: element-level reader API; octets over %s, <= %d (+8 header) octets, <= 3 calls)" % (
+        sorted(const["Alphabet"]), const["MaxLen"]))
+    cases = os.path.join(wd, "reader_cases.ndjson")
+    g = mc(chk.pid, "gen_reader", "MC_Reader.tla", const, ["Gen"], case_file=cases)
+    if g["cases"] == 0:
+        raise ToolError("TLC generated no reader sessions")
+    out = os.path.join(wd, "run_reader")
+    harness("vh", ["reader", "--cases", cases, "--out", out, "--seed", chk.seed, "--native", 1500 if q else 20000])
+    run = json.load(open(os.path.join(out, "run.json")))
+    before = chk.traces
+    validate_with_retries(chk, "trace_reader", "Trace_Reader.tla", os.path.join(out, "trace.ndjson"),
+                          os.path.join(out, "trace.side.ndjson"), drop_runs=True, block=(("rsrc",), ("rsrc",)),
+                          extension_evs=("rsrc", "rcall", "rrel", "rpanic"),
+                          describe=lambda ev: "element-level reader: %s is not the step IppReaderPrims allows (ok=%s kind=%s pos=%s, %s octets returned)" % (
+                              ev.get("op") or ev.get("how") or ev.get("ev"), ev.get("ok"), ev.get("kind"), ev.get("pos"),
+                              len((ev.get("out") or {}).get("b", ev.get("rest") or []))))
+    chk.extra["specification_extension_reader_api"] = {
+        "model": "MC_Reader / Trace_Reader", "sessions_from_tlc": g["cases"], "sessions_run": run["distinct_inputs"],
+        "calls_recorded": run["evaluations"], "events_validated": chk.traces - before}
 
 
 def check_C07(chk):
@@ -921,6 +956,8 @@ DEVIATIONS = [
      ["OkMeansAll", "Contiguous", "NoReadAhead", "Deterministic", "TruncNeverOk"], None),
     ("C06", "an 8-octet buffered reader reads ahead", "MC_Stream.tla",
      dict(STREAM_BASE, Elems="<- Msg_m1", Avails={13}, Modes={"sync"}, MsgName="m1", BufSize=8), ["NoReadAhead"], None),
+    ("C06", "extension: reader takes the length octets low-order first", "MC_Reader.tla",
+     dict(Alphabet={0, 1}, MaxLen=3, MaxCalls=2, LenOrder="le"), ["ReadsRFCFields"], None),
     ("C08", "payload delivered before header and attributes", "MC_Payload.tla",
      dict(HLen=2, PLen=3, Kind="sync", Iface="sync", Bufs={1, 4}, Chunks={1, 3}, MaxPend=0, MaxIntr=0, MaxReads=9,
           ChainOrder="payload-first"), ["InOrder"], None),
